@@ -228,3 +228,39 @@ def f(c: bool) -> uint256:
 def g(c: bool) -> uint256:
     return (len(msg.data) | 1) if c else 5
 ''')
+
+# statements between two zero-initialisations of adjacent memory slots must survive the zeroing merge
+_add("zero_gap", '''
+s: public(uint256)
+t: public(uint256)
+
+event Mark:
+    x: uint256
+
+@external
+def f(x: uint256) -> uint256:
+    a: uint256 = 0
+    self.s = x + 5
+    b: uint256 = 0
+    log Mark(x=x)
+    c: uint256 = 0
+    self.t = self.s + 1
+    d: uint256[2] = empty(uint256[2])
+    return self.s + self.t + a + b + c + d[1]
+''')
+
+# CREATE returns an address, not 0/1: `!= empty(address)` must stay a boolean
+_add("create_bool", '''
+last: public(address)
+
+@external
+def mk(target: address) -> bool:
+    a: address = create_minimal_proxy_to(target, revert_on_failure=False)
+    self.last = a
+    return a != empty(address)
+
+@external
+def mk2(target: address, salt: bytes32) -> (bool, bool):
+    ok: bool = create_minimal_proxy_to(target, salt=salt, revert_on_failure=False) != empty(address)
+    return ok, not ok
+''')
